@@ -448,6 +448,7 @@ class StreamSequence:
         
     def clear(self):
         if self._fixed_size:
+            for i in self._streams: self._undock(i)
             self._initialize_missing_streams()
         else:
             for i in self._streams: self._undock(i)
